@@ -54,7 +54,7 @@ def r2(idx, rep):
             if isinstance(n, ast.Assign) and isinstance(n.value, ast.Constant) and n.value.value == "complete":
                 sites.append((fi, n))
     for fi, n in sites:
-        rep.check(fi.qual == "ResultsRegistrar.register_complete", "R2", f"{fi.file}::{fi.qual} stores status 'complete'",
+        rep.check(K.owner_of(idx, fi, {"ResultsRegistrar.register_complete"}) is not None, "R2", f"{fi.file}::{fi.qual} stores status 'complete'",
                   "only the run registrar's register_complete may mark a run complete", K.where(fi, n))
     rep.floor("R2", 1, "'complete' status stores")
     # complete_run is not called from a handler or a finally block in the run methods
